@@ -95,6 +95,10 @@ def _lua_prog(rng, tag, n):
             lines.append(b'print("%s %d")\n' % (t, rng.randrange(10000)))
         else:
             lines.append(b'if v_%s_0 then v_%s_0=%d end\n' % (t, t, rng.randrange(100)))
+    if n % 3 == 0:
+        # the code area writer of .p8.png treats text that mentions _update60 specially (a compatibility line is
+        # appended to what it compresses and cut off again after decompressing): the section must still be the source's
+        lines.insert(rng.randrange(1, len(lines) + 1), b'function _update60() t_%s=1 end\n' % t)
     return b''.join(lines)
 
 
@@ -106,13 +110,18 @@ def _mk_game(rng, tag, version, with_label, short=False):
     g = Game.make_empty_game(version=version)
     for s in SECS[1:]:
         sec = getattr(g, s)
-        if short:
+        if short == 'zeros':
+            # random first rows, then zero BYTES to the end of the region (for sfx and music zeros are not what an
+            # empty cart holds): the file is written whole
+            k = rng.choice([1, 2, shortp8.ROWS[s] // 2]) * shortp8.ROW[s]
+            sec._data[:] = rng.randbytes(k) + bytes(len(sec._data) - k)
+        elif short:
             # random first rows, then what an empty cart holds: the .p8 file of this cart has short sections
             sec._data[:] = shortp8.region_with_default_tail(rng, s, rng.choice([0, 1, 2, shortp8.ROWS[s] // 2]))
         else:
             sec._data[:] = rng.randbytes(len(sec._data))
     g.lua = Lua.from_lines([_lua_prog(rng, tag, rng.randrange(14, 40))], version=version)
-    lab = shortp8.region_with_default_tail(rng, 'label', 3) if short else rng.randbytes(8192)
+    lab = shortp8.region_with_default_tail(rng, 'label', 3) if short is True else rng.randbytes(8192)
     g.label = Gfx(data=lab, version=version) if with_label else None
     # restrict sfx/music to what the .p8 text can say: once through the sections' own line writer and reader
     from pico8.sfx.sfx import Sfx
@@ -202,7 +211,8 @@ class Pool:
             versions = [8, 16, 29, 33, 41]
             for i in range(N_P8):
                 # s2.p8 and s5.p8 are carts with short sections (label / no label)
-                self._cart(rng, p8file, 's%d.p8' % i, versions[i % 5], with_label=(i % 2 == 0), short=(i % 3 == 2))
+                self._cart(rng, p8file, 's%d.p8' % i, versions[i % 5], with_label=(i % 2 == 0),
+                           short=(True if i % 3 == 2 else 'zeros' if i % 3 == 1 else False))
             for i in range(N_PNG):
                 self._cart(rng, p8file, 't%d.p8.png' % i, versions[(i + 2) % 5], with_label=False)
             for i in range(N_LUA):
@@ -250,10 +260,10 @@ class Pool:
             with io.open(self.path(name), 'wb') as fh:
                 P8PNGFormatter.to_file(g, fh, filename=name, label_fname=label_fname)
         else:
-            whole = _write_p8(self.path(name), g, short=short)
+            whole = _write_p8(self.path(name), g, short=(short is True))
         r = p8file.from_file(self.path(name))
         want, got = _contents(g), _contents(r)
-        if (want != got or r.version != version) and short and r.version == version:
+        if (want != got or r.version != version) and short is True and r.version == version:
             # a short-section source that the library reads to other bytes than the file denotes: the cases that name it
             # will show it (OUT's section is compared with what the FILE holds, i.e. `want`), so go on
             pass
